@@ -3,7 +3,7 @@ from vlib.runner import Tie
 from vlib import core
 
 ID = "C37"
-LEVEL = "proof"
+LEVEL = "partial"
 DESIGN_REF = "DESIGN.md section 5, C37"
 PROP_FILES = ["props/Properties_C37.v"]
 RULE = ("cases: operation scripts (Add one address from a source with a forced outcome of the stochastic test, Good, Attempt, Connected, "
@@ -299,9 +299,13 @@ TIES = [AddrTie("addrman_ops", "tie/drivers/addrman_drv.cpp", "Extract_AddrMan.v
 LEVEL_TEXT = ("Coq theorems, by induction over all operation sequences (all addresses, sources, timestamps, random draws, map iteration orders), about an "
               "executable transcription of AddrManImpl: the CheckAddrman invariant holds in every reachable state and no assert/Assume of the "
               "C++ fires; reference counts are at most 8, a tried address occupies exactly one slot, table sizes are bounded by the table "
-              "dimensions; Good moves an entry to tried and loses nothing but what the code evicts; Serialize->Unserialize preserves every address with "
-              "its statistics and placement. The model is tied to the real AddrMan by comparing the complete private state after every operation.")
-LEVEL_NOTE = ("Trusted: Coq kernel, dump_params.cpp, extraction + driver glue. The keyed hashes are abstract functions in the proofs and tabulated from the "
+              "dimensions; Good moves an entry to tried and loses nothing but what the code evicts; Serialize (any iteration order of mapInfo) "
+              "writes every address with its statistics and nothing else. The model is tied to the real AddrMan by comparing the complete "
+              "private state after every operation.")
+LEVEL_NOTE = ("Residue: the Unserialize half of the reload clause (the reloaded tables hold the same addresses in the same slots) is modelled "
+              "and exercised (every third script reloads the real AddrMan and continues on it; addresses, statistics and placement are compared "
+              "before/after) but not proved; its full statement is in Properties_C37.v. "
+              "Trusted: Coq kernel, dump_params.cpp, extraction + driver glue. The keyed hashes are abstract functions in the proofs and tabulated from the "
               "real code for the tie. Select_'s random search loop is not modelled: its precondition (the counts say an eligible entry exists) is "
               "proved sound and the implementation's answers are judged by the specification select_result_ok. Asmap change on reload (re-bucketing) "
               "is modelled but not exercised by the tie.")
